@@ -189,3 +189,91 @@ func vrtHarness_C07_silence() {
 	vrtAssert("a silent server makes the call fail once the liveness timeout has passed", err != nil)
 	_ = time.Second
 }
+
+// A query gives up (context cancelled) while its pipelined connection is still dialing; the
+// dial then succeeds.  Later queries and Close must still return.
+func vrtHarness_C07_cancelWhileDialing() {
+	released := false
+	var conns []*vrtConn
+	t := vrtMkTransport(0, func(ctx context.Context) (NetConn, error) {
+		var c *vrtConn
+		vrtAwait(func() bool { return released }, func() {
+			c = &vrtConn{stream: true}
+			conns = append(conns, c)
+			go func() { // echo server
+				vrtDaemon()
+				for k := 0; k < 2; k++ {
+					kk := k
+					vrtAwait(func() bool { return len(c.frames) > kk }, func() { c.serverSend(c.frames[kk]) })
+				}
+			}()
+		})
+		return c, nil
+	})
+	ctxX, cancelX := context.WithCancel(context.Background())
+	xDone := make(chan error, 1)
+	go func() {
+		_, err := t.ExchangeContext(ctxX, vrtWire(1, 200))
+		xDone <- err
+	}()
+	vrtWaitQuiescent() // the query is queued on the dialing connection
+	cancelX()
+	vrtAssert("the abandoned query returns with an error", <-xDone != nil)
+	vrtAtomic(func() { released = true }) // the dial completes
+	vrtWaitQuiescent()
+	ctx, cancel := context.WithTimeout(context.Background(), 2*time.Second)
+	defer cancel()
+	r, err := t.ExchangeContext(ctx, vrtWire(2, 100))
+	vrtCover("later query returned", true)
+	vrtAssert("a later query is served", vrtAnd(err == nil, r != nil))
+	t.Close()
+	vrtCover("close returned", true)
+	vrtWaitQuiescent()
+	for _, c := range conns {
+		vrtAssert("every connection is closed", c.closed)
+	}
+	vrtAssert("every goroutine the transport created has ended", vrtLiveThreads() == 0)
+}
+
+// Several queries queue on a dialing connection whose real limit turns out smaller (1): one
+// is sent, the others are refused and retried elsewhere; the server stays silent.  Close
+// must wake every pending query, close every connection and leave no goroutine.
+func vrtHarness_C07_closeQueued() {
+	released := false
+	var conns []*vrtConn
+	t := NewPipelineTransport(PipelineOpts{MaxConcurrentQueryWhileDialing: 4, DialContext: func(ctx context.Context) (DnsConn, error) {
+		var c *vrtConn
+		vrtAwait(func() bool { return released }, func() {
+			c = &vrtConn{stream: true}
+			conns = append(conns, c)
+		})
+		return NewDnsConn(TraditionalDnsConnOpts{WithLengthHeader: true, MaxConcurrentQuery: 1}, c), nil
+	}})
+	k := vrtParam("queued", 3)
+	pending, failed := 0, 0
+	for i := 0; i < k; i++ {
+		i := i
+		go func() {
+			vrtAtomic(func() { pending++ })
+			_, err := t.ExchangeContext(context.Background(), vrtWire(uint16(i), uint16(100+i)))
+			vrtAtomic(func() {
+				pending--
+				if err != nil {
+					failed++
+				}
+			})
+		}()
+	}
+	vrtWaitQuiescent()
+	vrtAtomic(func() { released = true })
+	vrtWaitQuiescent() // the server is silent: whoever got through waits for a reply
+	t.Close()
+	vrtFreezeTimers()
+	vrtWaitQuiescent()
+	vrtCover("closed with queries in flight", true)
+	vrtAssert("every call pending at Close returns with an error", vrtAnd(pending == 0, failed == k))
+	for _, c := range conns {
+		vrtAssert("every connection is closed", c.closed)
+	}
+	vrtAssert("every goroutine the transport created has ended", vrtLiveThreads() == 0)
+}
